@@ -588,6 +588,49 @@ func boxDist(mn, mx, p V3) float64 {
 type scanned struct {
 	e      trees.Element
 	mn, mx V3
+	verts  []V3 // the case's own vertices of this primitive (independent of Scope)
+}
+
+// refClosest is the distance from p to the primitive spanned by vs (1 = point, 2 = segment,
+// 3 = triangle), computed from the vertices alone.  ok is false when the primitive is too thin for
+// the answer to be well conditioned (the caller then does not judge the element against it).
+func refClosest(vs []V3, p V3, scale float64) (d float64, ok bool) {
+	segDist := func(a, b V3) float64 {
+		ab := sub(b, a)
+		l2 := dot(ab, ab)
+		if l2 == 0 {
+			return norm(sub(p, a))
+		}
+		t := math.Max(0, math.Min(1, dot(sub(p, a), ab)/l2))
+		return norm(sub(p, add(a, scl(ab, t))))
+	}
+	switch len(vs) {
+	case 1:
+		return norm(sub(p, vs[0])), true
+	case 2:
+		return segDist(vs[0], vs[1]), true
+	}
+	a, b, c := vs[0], vs[1], vs[2]
+	n := cross(sub(b, a), sub(c, a))
+	longest := math.Max(norm(sub(b, a)), math.Max(norm(sub(c, b)), norm(sub(a, c))))
+	if !(longest > 1e-6*scale) || !(norm(n)/longest > 1e-4*longest) { // altitude over the longest edge
+		return 0, false
+	}
+	// inside the prism over the triangle: the distance to the plane; otherwise the nearest edge
+	un := scl(n, 1/norm(n))
+	h := dot(sub(p, a), un)
+	f := sub(p, scl(un, h))
+	inside := true
+	for _, e := range [3][2]V3{{a, b}, {b, c}, {c, a}} {
+		if dot(cross(sub(e[1], e[0]), sub(f, e[0])), un) < 0 {
+			inside = false
+		}
+	}
+	d = math.Min(segDist(a, b), math.Min(segDist(b, c), segDist(c, a)))
+	if inside {
+		d = math.Min(d, math.Abs(h))
+	}
+	return d, true
 }
 
 func idSet(name string, got []int, n int) (map[int]bool, *vh.Failure) {
@@ -666,7 +709,7 @@ func runCase(c Case, o *vh.Obs) *vh.Failure {
 	m.ScanPrimitives(func(i int, p modeling.Primitive) {
 		e := p.Scope(attr)
 		bb := e.BoundingBox()
-		els = append(els, scanned{e, av(bb.Min()), av(bb.Max())})
+		els = append(els, scanned{e: e, mn: av(bb.Min()), mx: av(bb.Max())})
 	})
 	if len(els) != n {
 		return vh.Failf("octree/scan-count", "ScanPrimitives visited %d primitives, the index list describes %d", len(els), n)
@@ -679,7 +722,8 @@ func runCase(c Case, o *vh.Obs) *vh.Failure {
 	dupBox := false
 	seenBox := map[[2]V3]bool{}
 	for i, s := range els {
-		lo, hi := bbox(gather(c.Pos, primVerts(c.Kind, c.Idx, i)))
+		els[i].verts = gather(c.Pos, primVerts(c.Kind, c.Idx, i))
+		lo, hi := bbox(els[i].verts)
 		if norm(sub(lo, s.mn)) > 1e-12*scale || norm(sub(hi, s.mx)) > 1e-12*scale {
 			return vh.Failf("octree/element-identity", "%s: element %d has box [%v,%v] but primitive %d spans [%v,%v]", what, i, s.mn, s.mx, i, lo, hi)
 		}
@@ -797,6 +841,15 @@ func pointQueries(tree *trees.OctTree, els []scanned, q Query, scale float64, ul
 		}
 		dist[i] = norm(sub(cp, q.P))
 		best = math.Min(best, dist[i])
+		// the element's own answer against the geometry of primitive i of the attribute the tree was built on
+		if ref, ok := refClosest(s.verts, q.P, scale); ok {
+			o.Count("element-closest-judged-against-geometry", 1)
+			if math.Abs(dist[i]-ref) > 1e-7*scale {
+				return vh.Failf("closestpoint/element-disagrees-with-geometry", "%s: element %d (vertices %v) answers ClosestPoint(%v) = %v at distance %.17g; the distance from the point to that primitive is %.17g", w, i, s.verts, q.P, cp, dist[i], ref)
+			}
+		} else {
+			o.Count("element-closest-not-judged/thin-triangle", 1)
+		}
 	}
 	if judged {
 		o.Class("query/closest")
